@@ -238,3 +238,27 @@ pub fn run_bcov(args: &[Sx]) -> Sx {
         }
     })
 }
+
+/// the sparse binned counter alone: region lists whose total number of bins no dense vector could hold
+pub fn run_sbcov(args: &[Sx]) -> Sx {
+    with_panic(|emit| {
+        let b = args[0].u64();
+        let s: GIntervalIndexSet = args[1].tagged("regs").iter().map(region).collect();
+        let mut sp: SparseBinnedCoverage<i64> = SparseBinnedCoverage::new(&s, b);
+        let mut spv: SparseBinnedCoverage<i64> = SparseBinnedCoverage::new(&s, b);
+        for (opi, o) in args[2].tagged("ops").iter().enumerate() {
+            let o = o.list();
+            match o[0].atom() {
+                "ins" => { let t = q(o); let k = o[4].i64(); sp.insert(&t, k); spv.insert(&bed6v(&t, opi), k); }
+                "reset" => { sp.reset(); spv.reset(); }
+                "getmap" => {
+                    if spv.get_coverage() != sp.get_coverage() || spv.total_count() != sp.total_count() { emit(a("ORACLE-FAIL:sparse-binned-counts-depend-on-the-tag-record-type")); }
+                    emit(Sx::L(vec![a("smap"), total(sp.total_count()), a(sp.len()), Sx::L(sp.get_coverage().iter().map(|(i, v)| Sx::L(vec![a(*i), a(*v)])).collect())]));
+                }
+                "getregion" => emit(sp.get_region(o[1].usize()).map(|g| sx_region(&g)).unwrap_or(a("none"))),
+                "getchrom" => emit(sp.get_chrom(o[1].usize()).map(|c| hex(c.as_bytes())).unwrap_or(a("none"))),
+                _ => panic!("glue: sbcov op"),
+            }
+        }
+    })
+}
